@@ -43,6 +43,19 @@ def gen_cases(rng, tier, scale):
          ('w18', '{{a.[this]}}', {'a': {'this': 1}}, '1')]
     for cid, t, d, exp in W:
         cases.append(rcase(cid, t, d, entry=4, kind='witness', exp=exp, tags=['witness']))
+    # block parameters over a collection that has no path in the data (a literal, a helper result, the context handed
+    # to a partial): the value parameter is bound to the element itself, whatever the seed draws above
+    D = {'o': {'a': {'n': 1}, 'b': {'n': 2}}, 'l': [{'n': 7}, {'n': 8}], 'n': 'ROOT'}
+    V = [('v1', '{{#each [[3]] as |item i|}}({{item}}:{{i}}:{{this}}){{/each}}', '([3]:0:[3])', {}),
+         ('v2', '{{#each (id o) as |v k|}}{{k}}={{v.n}},{{n}};{{/each}}', 'a=1,1;b=2,2;', {}),
+         ('v3', '{{#each (id l) as |v|}}{{v.n}}{{@index}}{{/each}}', '7081', {}),
+         ('v4', '{{#each (id l) as |v k|}}{{v.n}}{{k}}{{../n}}{{/each}}', '70ROOT81ROOT', {}),
+         ('v5', '{{> p o}}', 'a=1;b=2;', {'p': '{{#each this as |v k|}}{{k}}={{v.n}};{{/each}}'}),
+         ('v6', '{{> p l}}', '0=7;1=8;', {'p': '{{#each this as |v k|}}{{k}}={{v.n}};{{/each}}'}),
+         ('v7', '{{#with (id o) as |w|}}{{w.a.n}}{{#each w as |v k|}}{{k}}{{v.n}}{{/each}}{{/with}}', '1a1b2', {}),
+         ('v8', '{{#each o as |v k|}}{{k}}={{v.n}};{{/each}}{{#each l as |v k|}}{{k}}={{v.n}};{{/each}}', 'a=1;b=2;0=7;1=8;', {})]
+    for cid, t, exp, parts in V:
+        cases.append(rcase(cid, t, D, pre=['probes'], partials=parts, entry=4, kind='witness', exp=exp, tags=['derived-collection']))
     return cases
 
 def expected(c):
